@@ -1,5 +1,6 @@
 import B6.Lemmas.VM
 import B6.Lemmas.VMShape
+import B6.Lemmas.VMLambda
 /-!
 C21 — the VM evaluates programs as the language defines.
 
@@ -11,6 +12,16 @@ stack machine of api/vm.go with the `fixes/C21-*.patch` repairs).  Both are tied
   **equals** the interpreter's — same value, same error, in particular never a panic.  Lambda-free
   programs still use function values: global functions, partial applications at any depth
   (trailing-argument binding), calls of calls, higher-order builtins calling back into the VM.
+* `vm_lambda_partial` (proved, all fuel, all programs of the syntactic fragment `Expr.regSafe` whose
+  compiled code passes the decidable layout validation `VM.layoutOK`): the VM's observable outcome is
+  the interpreter's.  `regSafe`: no lambda uses a parameter of an enclosing lambda, and no lambda reads
+  an own parameter after a call that may run lambda code (lambda literal, computed function,
+  `call1/call2/apply/force`).  Lambdas may be nested, shadow, be passed to higher-order builtins and to
+  other lambdas, be returned and be partially applied.  The complement of `regSafe` is exactly the
+  driver's input class of the finding `closure-registers`; `layoutOK` is evaluated by the driver on
+  every program (it has never failed).  Both restrictions of `regSafe` are forced:
+  `closure_stale_register` (enclosing parameter) and `reentrant_stale_register` (a lambda that receives
+  itself: no enclosing parameter is used, yet the inner activation overwrites the outer one's register).
 * `vm_correct_statement`: the full property (all programs, outcomes compared as a caller observes
   them).  It is **false** for the code as it is — `closure_escape_panics`, `closure_stale_register`
   are machine-checked witnesses, replayed against the Go code by the harness corpus — because lambda
@@ -24,7 +35,7 @@ stack machine of api/vm.go with the `fixes/C21-*.patch` repairs).  Both are tied
   one (it is not, see above) — `OpLoad of invalid value` remains reachable.
 -/
 namespace B6.Props.C21
-open B6.Model B6.Model.VM B6.Lemmas.VM B6.Lemmas.VMShape
+open B6.Model B6.Model.VM B6.Lemmas.VM B6.Lemmas.VMShape B6.Lemmas.VMLambda
 
 /-- the full property: for every program the VM's observable outcome is the interpreter's -/
 def vm_correct_statement : Prop :=
@@ -96,15 +107,105 @@ example : Expr.lambdaFree (.call (.call (.call (.sym "mix") [.lit (.int 1)] fals
       = .ok (.int 321) := ⟨rfl, rfl⟩
 
 
-/-- `vm_lambda_partial` as planned in DESIGN: programs whose lambdas never use a parameter of an
-enclosing lambda (no closure in the proper sense; lambdas may still be nested, shadow, be passed,
-returned and partially applied).  **Not proved** (it needs the layout of the targets queue and an
-invariant on the global registers across nested `execute` calls); the correspondence run enforces it
-empirically: a failing program outside `Expr.hasOpenLambda` is reported as a violation, never as the
-known finding. -/
+/-- `vm_lambda_partial` as first planned in DESIGN: programs whose lambdas never use a parameter of an
+enclosing lambda.  It is **false** (`vm_lambda_partial_counterexample` below): a lambda that is passed
+to itself re-enters its own registers.  The theorem proved is for `Expr.regSafe`, which adds the
+condition that excludes this. -/
 def vm_lambda_partial_statement : Prop :=
   ∀ (fuel : Nat) (e : Expr), e.hasOpenLambda = false →
     (VM.run fuel e).map Val.obs = (interp fuel e).map Val.obs
+
+/-- **vm_lambda_partial.** For every fuel and every program in the fragment `Expr.regSafe` whose
+compiled instruction array passes the layout validation `VM.layoutOK` (a decidable check of the
+compiler's output, evaluated by the driver on every program of every run), the VM's outcome is the
+reference interpreter's: the same error, or values with the same observation (data structurally,
+functions by arity — the VM's `*lambdaCall` and the interpreter's closure are different objects).
+In particular no panic. -/
+theorem vm_lambda_partial (fuel : Nat) (e : Expr) (hs : e.regSafe = true) (hl : layoutOK e = true) :
+    (VM.run fuel e).map Val.obs = (interp fuel e).map Val.obs := by
+  unfold layoutOK at hl
+  unfold VM.run interp
+  cases hc : compile e with
+  | error err =>
+    rw [hc] at hl
+    cases err <;> simp at hl
+    simp [hl]
+  | ok code =>
+    rw [hc] at hl
+    simp only [Bool.and_eq_true] at hl
+    obtain ⟨hwf, hmm⟩ := hl
+    simp only [hwf, if_true]
+    unfold matchMain at hmm
+    cases code with
+    | nil => simp at hmm
+    | cons i0 is =>
+      cases i0 <;> (try (simp at hmm; done))
+      rename_i v0
+      simp only at hmm
+      cases hme : matchExpr (.pushVal v0 :: is) [] e is with
+      | none => rw [hme] at hmm; cases hmm
+      | some tl =>
+        rw [hme] at hmm
+        have htl : ∃ tl', tl = .ret :: tl' := by
+          cases tl with
+          | nil => simp at hmm
+          | cons i1 tl1 =>
+            cases i1 <;> (try (simp at hmm; done))
+            exact ⟨tl1, rfl⟩
+        obtain ⟨tl', rfl⟩ := htl
+        unfold Expr.regSafe at hs
+        cases hsc : Expr.regScan [] [] false e with
+        | none => simp [hsc] at hs
+        | some d' =>
+          obtain ⟨s1, s2⟩ := expr_sim (call_sim _ fuel) e [] [] [] [] false d' is (.ret :: tl') [v0] [] hsc hme
+            (by intro s _ _; exact ⟨rfl, rfl⟩) (by intro _ s h; simp at h)
+          simp only [runCode, execList]
+          cases hev : evalWith (applyFn fuel) [] e with
+          | error err => rw [s1 err hev]
+          | ok v =>
+            obtain ⟨v', regs', hv, _, hex⟩ := s2 v hev
+            rw [hex]
+            simp [execList, Except.map, VR_obs _ _ hv]
+
+private def ii (n : Int) : Expr := .lit (.int n)
+private def cc (f : Expr) (as : List Expr) : Expr := .call f as false
+
+/-- `call1 ({a b -> sub a b} 1) ({f x -> call1 f (add x 1)} {y -> mix y y y} 2)`: a partially applied
+lambda, a lambda passed to a lambda and called there through a higher-order builtin -/
+def lambdaWitness : Expr :=
+  cc (.sym "call1")
+    [cc (.lam ["a", "b"] (cc (.sym "sub") [.sym "a", .sym "b"])) [ii 1],
+     cc (.lam ["f", "x"] (cc (.sym "call1") [.sym "f", cc (.sym "add") [.sym "x", ii 1]]))
+       [.lam ["y"] (cc (.sym "mix") [.sym "y", .sym "y", .sym "y"]), ii 2]]
+
+/-- non-vacuity of `vm_lambda_partial`: its hypotheses hold for a program with three lambdas, and the
+outcome is a proper value -/
+example : lambdaWitness.regSafe = true ∧ layoutOK lambdaWitness = true ∧
+    interp 50 lambdaWitness = .ok (.int 332) ∧ VM.run 50 lambdaWitness = .ok (.int 332) := ⟨rfl, rfl, rfl, rfl⟩
+
+/-- a nested lambda that shadows instead of capturing is in the fragment: `{a -> {a -> add a 1}} 5 7` -/
+example : Expr.regSafe (cc (cc (.lam ["a"] (.lam ["a"] (cc (.sym "add") [.sym "a", ii 1]))) [ii 5]) [ii 7]) = true ∧
+    layoutOK (cc (cc (.lam ["a"] (.lam ["a"] (cc (.sym "add") [.sym "a", ii 1]))) [ii 5]) [ii 7]) = true := ⟨rfl, rfl⟩
+
+/-- `{f -> call2 f f 1} {g y -> add (call2 g {a b -> b} (add y 1)) y}`: no lambda uses a parameter of an
+enclosing lambda, but `g` is the second lambda itself -/
+def reentrantWitness : Expr :=
+  cc (.lam ["f"] (cc (.sym "call2") [.sym "f", .sym "f", ii 1]))
+    [.lam ["g", "y"] (cc (.sym "add")
+      [cc (.sym "call2") [.sym "g", .lam ["a", "b"] (.sym "b"), cc (.sym "add") [.sym "y", ii 1]], .sym "y"])]
+
+/-- A lambda that is called while one of its own activations is still running overwrites that
+activation's registers: the outer activation reads `y` after the inner call and finds 2 instead of 1.
+The VM answers 7, the language says 6 (reproduced on the Go code: harness corpus). -/
+theorem reentrant_stale_register :
+    VM.run 50 reentrantWitness = .ok (.int 7) ∧ interp 50 reentrantWitness = .ok (.int 6) ∧
+    reentrantWitness.hasOpenLambda = false ∧ reentrantWitness.regSafe = false := ⟨rfl, rfl, rfl, rfl⟩
+
+theorem vm_lambda_partial_counterexample : ¬ vm_lambda_partial_statement := by
+  intro h
+  have := h 50 reentrantWitness rfl
+  rw [reentrant_stale_register.1, reentrant_stale_register.2.1] at this
+  simp [Except.map, Val.obs] at this
 
 /-! ### the property fails for closures (finding `closure-registers`) -/
 
@@ -138,7 +239,8 @@ theorem vm_correct_counterexample : ¬ vm_correct_statement := by
   simp [Except.map, Val.obs] at this
 
 /-- both witnesses are in the class the driver reports as the known finding -/
-example : escapeWitness.hasOpenLambda = true ∧ staleWitness.hasOpenLambda = true := ⟨rfl, rfl⟩
+example : escapeWitness.regSafe = false ∧ staleWitness.regSafe = false ∧
+    escapeWitness.hasOpenLambda = true ∧ staleWitness.hasOpenLambda = true := ⟨rfl, rfl, rfl, rfl⟩
 
 /-! ### stack_shape -/
 
